@@ -365,6 +365,14 @@ def _selection_expr(ctx: Ctx, f: Func, atom: ast.AST):
                 c = comp_in(rets[0].value)
                 if c is not None:
                     return rets[0].value, c
+            # a search loop (`for m in members: if <selected>: return True` / `return False`) is the `any(...)` it computes: the helper's VALUE
+            from ..inline import if_convert
+            body = [st for st in g.node.body if not (isinstance(st, ast.Expr) and isinstance(st.value, ast.Constant))]
+            val = if_convert(body) if len(rets) > 1 else None
+            if isinstance(val, ast.Call) and isinstance(val.func, ast.Name) and val.func.id == "any" and comp_in(val) is not None:
+                ast.fix_missing_locations(val)
+                val._is_value = True  # type: ignore[attr-defined]
+                return val, comp_in(val)
             # a predicate helper with several returns (`if folder.files is None: return True; if skip: if not any(...): return True; return False`):
             # the selection part is the condition under which it returns True after the skip flag was consulted
             for r in rets:
@@ -434,7 +442,7 @@ def r09_4(ctx: Ctx) -> None:
             continue
         n_found += 1
         cd, pol, expr, comp = pred
-        via_helper = expr is not cd and isinstance(cd, ast.Call) and not any(x is comp for x in ast.walk(cd)) and isinstance(expr, (ast.UnaryOp, ast.Call, ast.Compare, ast.BoolOp)) \
+        via_helper = expr is not cd and not getattr(expr, "_is_value", False) and isinstance(cd, ast.Call) and not any(x is comp for x in ast.walk(cd)) and isinstance(expr, (ast.UnaryOp, ast.Call, ast.Compare, ast.BoolOp)) \
             and any(isinstance(r_, ast.Return) and isinstance(r_.value, ast.Constant) for tq in shared.targets_of(ctx, f, cd) for g_ in [ctx.res._func_by_q(tq)] if g_ is not None
                     for r_ in walk(g_.node) if len([x for x in walk(g_.node) if isinstance(x, ast.Return)]) > 1)
         fl = [(norm(c_), p_) for c_, p_ in facts]
